@@ -246,7 +246,7 @@ prop("C08",
           "naming existing chunks, minimal or redundant), any time-to-sample runs, sizes and chunk offsets, the walk IS 'chunks 1..C in order, chunk c holding spc_of c samples read back to back from its "
           "offset, sample k with the k-th size and the k-th duration of the expanded runs, until the declared count'; C08_samples_placed - on any tables every sample comes from an existing chunk, "
           "contiguously; for any tables a successful walk returns exactly the declared samples, "
-          "k-th with the k-th stsz size, media-time intervals contiguous from 0 in presentation order; reading i of n gets start+i*(end-start)/n, starting at the sample's "
+          "k-th with the k-th stsz size, media-time intervals contiguous from 0 in presentation order; reading i of n gets start+i*(end-start)/n with start and end the exact media times floor(ticks*1e9/timescale) of the sample's boundaries, for every timescale (C08_offsets_formula, C08_media_time_exact; after the repair D27), starting at the sample's "
           "start, never decreasing, inside its own interval; no GoPro metadata track = error.  Tied to the code by decoding synthesised MP4s (all compositions into chunks, "
           "minimal/redundant stsc runs, stts run splits, shuffled chunk placement, stco/co64, 6 timescales, other tracks) and comparing the whole tree and every reading's offset.",
      rule="one case = one synthesised MP4: 1-6 samples (thorough 9) each a DEVC payload with GPS5 (0-4 readings) and optionally another sensor, random composition into chunks of 1-3 samples, "
